@@ -113,6 +113,19 @@ def check_header(case):
     from ..core import pack_fresh
 
     pack_fresh(devs, "enc.bytes_repeat", h.pack, raw)
+    # a header that was packed, then changed through the objects its getters hand out (not through its own setters), packed again
+    hw = sp.SpacePacketHeader.unpack(raw)
+    hw.pack()
+    bool(hw == h)
+    hw.packet_id.apid = other_apid
+    hw.packet_seq_control.seq_count = other_count
+    eq(devs, "hist.changed_through_sub_objects.pack", bytes(hw.pack()), R.sp_header(f["ver"], f["ptype"], f["shf"], other_apid, f["flags"], other_count, f["dlen"]))
+    eq(devs, "hist.changed_through_sub_objects.fields", (hw.apid, hw.seq_count), (other_apid, other_count))
+    # positional construction in the documented parameter order (packet_type, apid, seq_count, data_len, sec_header_flag, seq_flags, ccsds_version)
+    hp = sp.SpacePacketHeader(sp.PacketType(f["ptype"]), f["apid"], f["count"], f["dlen"], bool(f["shf"]), sp.SequenceFlags(f["flags"]), f["ver"])
+    eq(devs, "enc.positional.bytes", bytes(hp.pack()), raw)
+    eq(devs, "pid.positional.raw", sp.PacketId(sp.PacketType(f["ptype"]), bool(f["shf"]), f["apid"]).raw(), p["packet_id"])
+    eq(devs, "psc.positional.raw", sp.PacketSeqCtrl(sp.SequenceFlags(f["flags"]), f["count"]).raw(), p["psc"])
     # documented defaults: no secondary header, unsegmented, version 0
     hdflt = sp.SpacePacketHeader(packet_type=sp.PacketType(f["ptype"]), apid=f["apid"], seq_count=f["count"], data_len=f["dlen"])
     eq(devs, "enc.defaults.bytes", bytes(hdflt.pack()), R.sp_header(0, f["ptype"], 0, f["apid"], 3, f["count"], f["dlen"]))
@@ -278,6 +291,15 @@ def check_refuse(case):
             return sp.SpacePacketHeader.from_composite_fields(pid, psc, bad, ver).pack()
 
         expect_raise(devs, "dlen.composite", comp)
+    if k in ("apid", "count"):
+        # the composite route with a field object whose value left its range after construction (plain attribute assignment)
+        pid = sp.PacketId(PT, bool(shf), case["base"][3])
+        psc = sp.PacketSeqCtrl(SF, case["base"][5])
+        if k == "apid":
+            pid.apid = bad
+        else:
+            psc.seq_count = bad
+        expect_raise(devs, f"{k}.composite_with_modified_field_object", lambda: sp.SpacePacketHeader.from_composite_fields(pid, psc, case["base"][6], ver).pack())
     return devs
 
 
